@@ -3,7 +3,7 @@ import z3
 from ..engine import AND, OR, NOT
 from ..values import is_variant, payload
 from .. import replay as rp
-from .setops import bits_for, fnr, decode_ab, prog_ab, built
+from .setops import premise_group, bits_for, fnr, decode_ab, prog_ab, built
 
 from ..validate import validation_group
 BOUNDS = {'quick': {'alternatives_per_operand': '1..2'}, 'thorough': {'alternatives_per_operand': '1..3'}}
@@ -13,7 +13,7 @@ ASSUMPTIONS = ['rank mode is sound given C04', 'std models are transcriptions of
 
 def groups(tier):
     K = 2 if tier == 'quick' else 3
-    return [{'name': 'rank-%dx%d' % (ka, kb), 'fn': rank_group, 'rank_fallback': True, 'args': {'ka': ka, 'kb': kb}} for ka in range(1, K + 1) for kb in range(1, K + 1)] + [validation_group(('allows_any',), tier)]
+    return [{'name': 'rank-%dx%d' % (ka, kb), 'fn': rank_group, 'rank_fallback': True, 'args': {'ka': ka, 'kb': kb}} for ka in range(1, K + 1) for kb in range(1, K + 1)] + [validation_group(('allows_any',), tier)] + [premise_group(tier)]
 
 
 def judge_any(case):
@@ -38,8 +38,8 @@ def judge_any(case):
     return prog, judge
 
 
-def rank_group(s, ka, kb, hybrid=False):
-    h = s.harness(L=1, cap_bs=max(ka * kb, 2), rank_bits=bits_for(2 * (ka + kb) + 1), hybrid=hybrid, field_bits=(3 if hybrid else 0))
+def rank_group(s, ka, kb, hybrid=False, concrete=False):
+    h = s.harness(L=1, cap_bs=max(ka * kb, 2), rank_bits=(0 if concrete else bits_for(2 * (ka + kb) + 1)), hybrid=hybrid, field_bits=(3 if hybrid else 0))
     s.ri_sites(h)
     A, _ = h.range_('A', ka, allow_any=True)
     B, _ = h.range_('B', kb, allow_any=True)
